@@ -16,6 +16,68 @@ def parseRisk (now : Int) : Nat → List Int → Option (List RiskB × List Int)
     | none => none
   | _, _ => none
 
+/-- the common context of the `wd.*` lines (everything up to and including the risk banks) and what follows it -/
+def parseCtx (a : List Int) : Option (Ctx × List Int) := do
+  match a with
+  | now :: gkey :: gadmin :: grisk :: paused :: pfr :: dl :: wt :: lr :: akey :: agroup :: aauth :: aflags :: rest =>
+    let (slots, rest) ← parseSlots7 16 rest
+    match rest with
+    | signer :: bkey :: bgroup :: bvault :: rest =>
+      let (books, rest) ← parseBank rest
+      match rest with
+      | last :: rest =>
+        let (ir, rest) ← parseIr rest
+        match rest with
+        | opState :: origFee :: tfBps :: tfMax :: wz :: vaultKey :: vaultAmount :: nrisk :: rest =>
+          let (risk, rest) ← parseRisk now nrisk.toNat rest
+          some ({
+            now,
+            g := { key := gkey.toNat, admin := gadmin.toNat, riskAdmin := grisk.toNat, paused := s2b paused, progFeeRate := pfr,
+                   window := { dailyLimit := dl, withdrawnToday := wt, lastReset := lr } },
+            a := { key := akey.toNat, group := agroup.toNat, authority := aauth.toNat, flags := aflags.toNat, slots },
+            signer := signer.toNat,
+            b := { key := bkey.toNat, group := bgroup.toNat, liquidityVault := bvault.toNat, books := { books with lastUpdate := last },
+                   ir, opState, origFee, tfBps, tfMax, weightInitZero := s2b wz },
+            vaultKey := vaultKey.toNat, vaultAmount, risk }, rest)
+        | _ => none
+      | _ => none
+    | _ => none
+  | _ => none
+
+/-- the transaction of a `wd.startliq` line: one code per instruction (0 start_liquidation, 1 end_liquidation, 2 withdraw,
+    3 repay, anything else: another marginfi instruction) -/
+def txOfCodes (codes : List Int) : List TOp :=
+  codes.map fun k =>
+    if k == 0 then TOp.startLiq 0 0 true else if k == 1 then TOp.endLiq 0 0 true true 0
+    else if k == 2 then TOp.ix (.withdraw 0 0 0 0 false 0) else if k == 3 then TOp.ix (.repay 0 0 0 0 false)
+    else TOp.ix (.accrue 0)
+
+/-- `wd.startliq <context> recordOk receiver n code_1 … code_n cur` → `ok <flags> <receiver> <cache x4>`;
+    `wd.endliq <context> recordOk recReceiver walletOk feeMax aMaint lMaint aEq lEq` (signer = the context's signer) → `ok <flags>` -/
+def worldRecvOp (op : String) (a : List Int) : Option String :=
+  if op != "wd.startliq" && op != "wd.endliq" then none else
+  let r : Option String := do
+    let (c, rest) ← parseCtx a
+    if op == "wd.startliq" then
+      match rest with
+      | recordOk :: receiver :: n :: rest =>
+        let codes := rest.take n.toNat
+        match rest.drop n.toNat with
+        | [cur] =>
+          let rc : RCtx := { now := c.now, g := c.g, a := c.a, recordOk := s2b recordOk, receiver := receiver.toNat, walletOk := true, feeMax := 0, risk := c.risk }
+          some (showResB ((World.startLiquidation rc (World.liqShape (txOfCodes codes) cur.toNat)).map fun o =>
+            s!"{o.flags} {o.receiver} {o.cache.aMaint} {o.cache.lMaint} {o.cache.aEq} {o.cache.lEq}"))
+        | _ => none
+      | _ => none
+    else
+      match rest with
+      | [recordOk, recReceiver, walletOk, feeMax, am, lm, ae, le] =>
+        let acct : AcctV := { c.a with recReceiver := recReceiver.toNat, recCache := { aMaint := am, lMaint := lm, aEq := ae, lEq := le } }
+        let rc : RCtx := { now := c.now, g := c.g, a := acct, recordOk := s2b recordOk, receiver := c.signer, walletOk := s2b walletOk, feeMax, risk := c.risk }
+        some (showResB ((World.endLiquidation rc 1).map fun o => s!"{o.flags}"))
+      | _ => none
+  some (r.getD "bad-args")
+
 /-- `wd.<dep|wd|bor|rep|close> now  gkey gadmin grisk paused progFeeRate dailyLimit withdrawnToday lastReset
       akey agroup aauthority aflags <16 slots x 7>  signer
       bkey bgroup bvault <bank 16> last_update <ir 23> opState origFee tfBps tfMax weightInitZero
